@@ -76,6 +76,8 @@ ENTRIES = [
     # --- flusher main loop
     dict(props=["C01", "C04"], body="re:^" + re.escape(B) + r"::flusher::Runner::<K, V, P>::run::\{closure#0\}$|^" + re.escape(B) + r"::flusher::Runner::run::\{closure#0\}$", call=r"flusher::Runner::<K, V, P>::recv$", start=("ok", r"try_recv$"),
          why="every submission drained from the channel is handed to recv"),
+    dict(props=["C01", "C15"], body="re:^" + re.escape(B) + r"::flusher::Runner::<K, V, P>::run::\{closure#0\}$|^" + re.escape(B) + r"::flusher::Runner::run::\{closure#0\}$", call=r"flusher::Runner::<K, V, P>::recv$", start=("count", 2),
+         why="both receive points of the runner's loop (the non-blocking drain and the blocking select arm) hand the submission to recv: a submission dropped there loses an entry, a tombstone or a waiter (close() then never returns)"),
     dict(props=["C04", "C15"], body="re:^" + re.escape(B) + r"::flusher::Runner::<K, V, P>::run::\{closure#0\}$|^" + re.escape(B) + r"::flusher::Runner::run::\{closure#0\}$", call=r"VecDeque::<T, A>::push_back$", start=("after", r"flusher::Runner::<K, V, P>::submit_io_task$"),
          why="the io task of a submitted batch is queued for completion handling (index visibility, waiters, PieceRef release)"),
 ]
@@ -116,7 +118,7 @@ def _starts(F, f, e):
                [b.idx for b in f.blocks if not b.cleanup for s in b.stmts if s.k == "assign" and s.rv.k == "agg" and s.rv.j.get("variant") == "Err"]
         return [0], errs
     kind, pat = st
-    if kind == "dominates":
+    if kind in ("dominates", "count"):
         return None, []
     if kind == "agg":
         bl = [b.idx for b in f.blocks if not b.cleanup for s in b.stmts if s.k == "assign" and s.rv.k == "agg" and s.rv.j.get("adt") == pat]
@@ -174,7 +176,9 @@ def run_for(chk, F, prop):
                 calls = [b.idx for b in f.calls_to(e["call"])
                          if not e.get("arg_ty") or any(a.place is not None and re.search(e["arg_ty"], f.local_ty(a.place.local) or "") for a in b.term.args)]
                 starts, ends = _starts(F, f, e)
-                if starts is None:
+                if starts is None and e["start"][0] == "count":
+                    ok = len(calls) >= e["start"][1]
+                elif starts is None:
                     tg = f.calls_to(e["start"][1])
                     ok = bool(calls) and bool(tg) and all(any(f.dominates(c, t.idx) for c in calls) for t in tg)
                 else:
@@ -185,6 +189,6 @@ def run_for(chk, F, prop):
                         reach = f.reachable([s0], avoid=calls + ends)
                         ok = ok and not (set(f.returns() + again) & reach)
                 what = "%s: %s from %s" % (f.short.rsplit("::", 2)[-2] + "::" + f.short.rsplit("::", 1)[-1] if "{closure" not in f.short else f.short.split("block::")[-1].split("foyer_memory::")[-1][:60],
-                                           e["call"].split("|")[0].strip("$").rsplit("::", 1)[-1], e["start"] if isinstance(e["start"], str) else "%s(%s)" % (e["start"][0], e["start"][1].split("|")[0].strip("$").rsplit("::", 1)[-1]))
+                                           e["call"].split("|")[0].strip("$").rsplit("::", 1)[-1], e["start"] if isinstance(e["start"], str) else "%s(%s)" % (e["start"][0], str(e["start"][1]).split("|")[0].strip("$").rsplit("::", 1)[-1]))
                 r.require(ok, f, what, e["why"], "a step every path needs is missing or conditional here — " + e["why"], ln=f.lo)
     chk.run_rule(prop + ".must-call", "steps that every path of the named bodies must take (instances found by the statement-deletion sweep, each confirmed by reading)", len(ents), body, F)
